@@ -12,7 +12,10 @@ package c03
 import (
 	"fmt"
 	"math"
+	"math/big"
+	"os"
 	"reflect"
+	"sort"
 	"strconv"
 	"strings"
 	"testing"
@@ -119,12 +122,20 @@ type Case struct {
 	//   resolver    v: "${x}", x answered by a Resolve callback with the value written as text
 	//   splice      v: text[:cut] + "${x}${e}", x: text[cut:], e: ""   (spliced text, re-parsed)
 	//   splice-val  v: "${x}${e}", x: <value>, e: ""              (the value itself is turned into text)
+	//   resolve-env text in the process environment, `${C03_X}` answered by ucfg.ResolveEnv (parse.EnvConfig)
+	//   envcfg      v: "${x}", x: <value> in a second configuration passed with ucfg.Env at the read
+	//   default     v: "${nope:<text>}"                           (the default text of an expansion, re-parsed)
+	//   pieces      v: the text cut at Cuts into pieces, piece i delivered as Kinds[i], + "${e}" (see buildPieces)
 	Deliv string `json:"deliv"`
 	Cut   int    `json:"cut,omitempty"`
-	Noop  bool   `json:"noop,omitempty"` // resolver: the callback returns parse.NoopConfig instead of parse.DefaultConfig
-	Tgt   string `json:"tgt"`            // bool int int8 ... float64 string duration
-	Var   string `json:"var,omitempty"`  // Unpack only: "" | set | ptr | ptr-set | named | ptr-named
-	Read  string `json:"read"`           // unpack (struct field) | getter (Bool/Int/Uint/Float/String)
+	Noop  bool   `json:"noop,omitempty"`  // resolver: the callback returns parse.NoopConfig instead of parse.DefaultConfig
+	PC    string `json:"pc,omitempty"`    // resolver: name of the parse.Config the callback returns (parseConfigs); "" = default (or Noop)
+	Cuts  []int  `json:"cuts,omitempty"`  // pieces: cut positions in the text (clamped, sorted by the generator)
+	Kinds string `json:"kinds,omitempty"` // pieces: one letter per piece: l literal text in v | s `${pI}` to a string | n `${pI}` to a number (if the piece is a canonical decimal, else s) | r `${rI}` answered by a Resolve callback (if not empty, else s)
+	IC    bool   `json:"ic,omitempty"`    // text deliveries: the ucfg.IgnoreCommas option is passed to the read
+	Tgt   string `json:"tgt"`             // bool int int8 ... float64 string duration
+	Var   string `json:"var,omitempty"`   // Unpack only: "" | set | ptr | ptr-set | named | ptr-named
+	Read  string `json:"read"`            // unpack (struct field) | getter (Bool/Int/Uint/Float/String)
 }
 
 func (c Case) String() string {
@@ -132,12 +143,134 @@ func (c Case) String() string {
 	if c.Var != "" {
 		t += "/" + c.Var
 	}
-	return fmt.Sprintf("%v delivered as %s, read by %s into %s", c.Src, c.Deliv, c.Read, t)
+	d := c.Deliv
+	switch c.Deliv {
+	case "resolver":
+		d += "(" + c.pcName() + ")"
+	case "splice":
+		d += fmt.Sprintf("(cut %d)", c.Cut)
+	case "pieces":
+		d += fmt.Sprintf("(cuts %v as %q)", c.Cuts, c.Kinds)
+	}
+	if c.IC {
+		d += "+IgnoreCommas"
+	}
+	return fmt.Sprintf("%v delivered as %s, read by %s into %s", c.Src, d, c.Read, t)
+}
+
+// parseConfigs are the parse.Config values a resolver callback can return
+// (every combination parse.ValueWithConfig accepts is valid; these differ in
+// the features that are on).
+var parseConfigs = map[string]parse.Config{
+	"default": parse.DefaultConfig,
+	"env":     parse.EnvConfig,
+	"noop":    parse.NoopConfig,
+	"array":   {Array: true},
+	"quotes":  {StringDQuote: true, StringSQuote: true, IgnoreCommas: true},
+	"commas":  {Array: true, Object: true, StringDQuote: true, StringSQuote: true, IgnoreCommas: true},
+}
+
+var parseConfigNames = []string{"default", "env", "noop", "array", "quotes", "commas"}
+
+func (c Case) pcName() string {
+	if c.PC != "" {
+		return c.PC
+	}
+	if c.Noop {
+		return "noop"
+	}
+	return "default"
+}
+
+const envVar = "C03_X"
+
+// canonicalNumber returns the piece as a Go number if writing that number as
+// text gives the piece back (so `${n}` splices exactly these characters).
+func canonicalNumber(piece string) (interface{}, bool) {
+	if u, err := strconv.ParseUint(piece, 10, 64); err == nil && strconv.FormatUint(u, 10) == piece {
+		return u, true
+	}
+	if i, err := strconv.ParseInt(piece, 10, 64); err == nil && strconv.FormatInt(i, 10) == piece {
+		return i, true
+	}
+	return nil, false
+}
+
+// buildPieces cuts text at the cut positions and delivers every piece in the
+// way its kind letter says. The setting always ends in "${e}" (e = ""), so it
+// is a splice whose text is re-parsed even if a single piece remains.
+func buildPieces(text string, cuts []int, kinds string) (map[string]interface{}, map[string]string, string) {
+	var pos []int
+	for _, c := range cuts {
+		if c < 0 {
+			c = 0
+		}
+		if c > len(text) {
+			c = len(text)
+		}
+		pos = append(pos, c)
+	}
+	sort.Ints(pos)
+	pos = append(pos, len(text))
+	m := map[string]interface{}{"e": ""}
+	res := map[string]string{}
+	var v strings.Builder
+	shape := ""
+	start := 0
+	for i, end := range pos {
+		piece := text[start:end]
+		start = end
+		k := byte('s')
+		if i < len(kinds) {
+			k = kinds[i]
+		}
+		if k == 'n' {
+			if n, ok := canonicalNumber(piece); ok {
+				m[fmt.Sprintf("p%d", i)] = n
+				fmt.Fprintf(&v, "${p%d}", i)
+				shape += "n"
+				continue
+			}
+			k = 's'
+		}
+		if k == 'r' && piece != "" {
+			res[fmt.Sprintf("r%d", i)] = piece
+			fmt.Fprintf(&v, "${r%d}", i)
+			shape += "r"
+			continue
+		}
+		if k == 'l' {
+			v.WriteString(piece)
+			shape += "l"
+			continue
+		}
+		m[fmt.Sprintf("p%d", i)] = piece
+		fmt.Fprintf(&v, "${p%d}", i)
+		shape += "s"
+	}
+	v.WriteString("${e}")
+	m["v"] = v.String()
+	return m, res, shape
 }
 
 // deliver builds the configuration and returns the options the read needs
 // and the effective value of the setting.
+func (c Case) effText(text string, pc parse.Config) eff {
+	if c.IC {
+		pc.IgnoreCommas = true // the option switches the top-level comma syntax off for every re-parsed text; a numeral has no comma
+	}
+	return effOfText(text, pc)
+}
+
 func deliver(c Case) (*ucfg.Config, []ucfg.Option, eff, error) {
+	cfg, opts, e, err := deliver0(c)
+	if c.IC {
+		opts = append(opts, ucfg.IgnoreCommas)
+	}
+	return cfg, opts, e, err
+}
+
+func deliver0(c Case) (*ucfg.Config, []ucfg.Option, eff, error) {
 	val, err := c.Src.goValue()
 	if err != nil {
 		return nil, nil, eff{}, err
@@ -151,9 +284,9 @@ func deliver(c Case) (*ucfg.Config, []ucfg.Option, eff, error) {
 		return cfg, nil, c.Src.eff(), err
 	case "resolver":
 		text := c.Src.text()
-		pc := parse.DefaultConfig
-		if c.Noop {
-			pc = parse.NoopConfig
+		pc, ok := parseConfigs[c.pcName()]
+		if !ok {
+			return nil, nil, eff{}, fmt.Errorf("harness: unknown parse config %q", c.PC)
 		}
 		cfg, err := ucfg.NewFrom(map[string]interface{}{"v": "${x}"}, ucfg.VarExp)
 		res := ucfg.Resolve(func(name string) (string, parse.Config, error) {
@@ -162,7 +295,7 @@ func deliver(c Case) (*ucfg.Config, []ucfg.Option, eff, error) {
 			}
 			return "", parse.Config{}, fmt.Errorf("no such variable %q", name)
 		})
-		return cfg, []ucfg.Option{res}, effOfText(text, pc), err
+		return cfg, []ucfg.Option{res}, c.effText(text, pc), err
 	case "splice":
 		text := c.Src.text()
 		cut := c.Cut
@@ -173,14 +306,52 @@ func deliver(c Case) (*ucfg.Config, []ucfg.Option, eff, error) {
 			cut = len(text)
 		}
 		cfg, err := ucfg.NewFrom(map[string]interface{}{"v": text[:cut] + "${x}${e}", "x": text[cut:], "e": ""}, ucfg.VarExp)
-		return cfg, nil, effOfText(text, parse.DefaultConfig), err
+		return cfg, nil, c.effText(text, parse.DefaultConfig), err
 	case "splice-val":
 		cfg, err := ucfg.NewFrom(map[string]interface{}{"v": "${x}${e}", "x": val, "e": ""}, ucfg.VarExp)
 		e := c.Src.eff()
 		if c.Src.K == "s" {
-			e = effOfText(c.Src.S, parse.DefaultConfig)
+			e = c.effText(c.Src.S, parse.DefaultConfig)
 		}
 		return cfg, nil, e, err
+	case "resolve-env":
+		text := c.Src.text()
+		if text == "" || strings.ContainsRune(text, 0) {
+			return nil, nil, eff{kind: "undeliverable"}, nil // an empty variable counts as unset; NUL cannot be stored
+		}
+		if err := os.Setenv(envVar, text); err != nil {
+			return nil, nil, eff{kind: "undeliverable"}, nil
+		}
+		cfg, err := ucfg.NewFrom(map[string]interface{}{"v": "${" + envVar + "}"}, ucfg.VarExp)
+		return cfg, []ucfg.Option{ucfg.ResolveEnv}, c.effText(text, parse.EnvConfig), err
+	case "envcfg":
+		env, err := ucfg.NewFrom(map[string]interface{}{"x": val})
+		if err != nil {
+			return nil, nil, eff{}, err
+		}
+		cfg, err := ucfg.NewFrom(map[string]interface{}{"v": "${x}"}, ucfg.VarExp)
+		return cfg, []ucfg.Option{ucfg.Env(env)}, c.Src.eff(), err
+	case "default":
+		text := c.Src.text()
+		if strings.ContainsAny(text, "${}:\\") {
+			return nil, nil, eff{kind: "undeliverable"}, nil // syntax of the expansion itself
+		}
+		cfg, err := ucfg.NewFrom(map[string]interface{}{"v": "${nope:" + text + "}"}, ucfg.VarExp)
+		return cfg, nil, c.effText(text, parse.DefaultConfig), err
+	case "pieces":
+		text := c.Src.text()
+		m, res, _ := buildPieces(text, c.Cuts, c.Kinds)
+		cfg, err := ucfg.NewFrom(m, ucfg.VarExp)
+		var opts []ucfg.Option
+		if len(res) > 0 {
+			opts = append(opts, ucfg.Resolve(func(name string) (string, parse.Config, error) {
+				if s, ok := res[name]; ok {
+					return s, parse.NoopConfig, nil
+				}
+				return "", parse.Config{}, fmt.Errorf("no such variable %q", name)
+			}))
+		}
+		return cfg, opts, c.effText(text, parse.DefaultConfig), err
 	}
 	return nil, nil, eff{}, fmt.Errorf("harness: unknown delivery %q", c.Deliv)
 }
@@ -225,8 +396,11 @@ func runCase(c Case, r *runlog.R) error {
 		return fmt.Errorf("%v: building the configuration failed: %v", c, err)
 	}
 	if e.kind != "num" && e.kind != "bool" && e.kind != "str" {
-		r.Discard() // the text is null, a list/object or unparsable: not a primitive setting
+		r.Discard() // the text is null, a list/object or unparsable (or cannot be delivered this way): not a primitive setting
 		return nil
+	}
+	if cfg == nil {
+		return fmt.Errorf("harness: %v: no configuration", c)
 	}
 	dyn := c.Deliv != "lit"
 	v := oracle(e, t, dyn)
@@ -263,6 +437,22 @@ func runCase(c Case, r *runlog.R) error {
 	r.Class("src=" + c.Src.K)
 	r.Class("setting=" + e.kind)
 	r.Class("deliv=" + c.Deliv)
+	switch c.Deliv {
+	case "resolver":
+		r.Class("resolver parse.Config=" + c.pcName())
+	case "pieces":
+		_, _, shape := buildPieces(c.Src.text(), c.Cuts, c.Kinds)
+		r.Class("pieces=" + shape)
+	}
+	r.ClassIf(c.IC, "IgnoreCommas option")
+	if c.Deliv != "lit" && c.Deliv != "ref" && c.Deliv != "envcfg" && e.kind == "num" {
+		txt := strings.TrimSpace(c.Src.text())
+		r.Class("number from text")
+		r.ClassIf(strings.HasPrefix(txt, "+"), "number from text: explicit +")
+		r.ClassIf(e.n.exact && e.n.x != nil && new(big.Float).Abs(e.n.x).Cmp(big.NewFloat(1<<53)) > 0, "number from text: integer beyond 2^53")
+		r.ClassIf(e.n.exact && e.n.x != nil && new(big.Float).Abs(e.n.x).Cmp(big.NewFloat(1<<53)) > 0 && strings.HasPrefix(txt, "+"), "number from text: integer beyond 2^53 with explicit +")
+		r.ClassIf(nonDecimalSpelling(txt), "number from text: non-decimal spelling")
+	}
 	if c.Read == "getter" {
 		r.Class("read=getter:" + t.name)
 	} else {
